@@ -108,6 +108,13 @@ def gen_case(tape, tier):
         elif k in ("update_defaults", "update_bound"):
             fd = tape.pick(w["functions"], "fn")
             p = tape.pick(fd["params"], "param")
+            if k == "update_defaults" and tape.coin(0.2, "mutable-default"):
+                # the default is a list object which the caller later changes in place (no update_* call)
+                ops.append({"op": "mutable_default", "fn": fd["name"], "param": p})
+                ops.append({"op": "repeat"})
+                ops.append({"op": "mutate_default_in_place", "fn": fd["name"], "param": p})
+                ops.append({"op": "repeat"})
+                continue
             if tape.coin(0.2, "on-a-copy"):
                 # the update is made on a copy of the pipeline (Pipeline.copy()), which is then thrown away: the original
                 # must not notice
@@ -154,6 +161,7 @@ def gen_case(tape, tier):
     # roots whose two values are NaN and a number, marked by a prefix so that every value lookup knows
     array_roots += ["nan:" + r for r in roots if r not in array_roots and tape.coin(0.12, "nan-root")]
     array_roots += ["od:" + r for r in roots if r not in array_roots and "nan:" + r not in array_roots and tape.coin(0.1, "odict-root")]
+    array_roots += ["ma:" + r for r in roots if not any(p_ + r in array_roots for p_ in ("", "nan:", "od:")) and tape.coin(0.1, "masked-root")]
     case = {"part": "A", "workload": w, "cached": cached, "cache": cache, "ops": ops, "array_roots": array_roots}
     if ((ctype in ("lru", "hybrid") and cache["shared"]) or (ctype == "disk" and (cache["shared"] or not cache["with_lru"]))) \
             and tape.coin(0.25, "pipeline-roundtrip"):
@@ -271,6 +279,11 @@ def capacity(cache):
 def _val(name, i, array_roots=()):
     if "nan:" + name in array_roots and i < 2:
         return float("nan") if i == 0 else 1.5
+    if "ma:" + name in array_roots and i < 2:
+        import numpy as np
+
+        # the same data, the same NUMBER of masked entries, at different positions
+        return np.ma.MaskedArray([1.0, 2.0, 3.0], mask=[True, False, False] if i == 0 else [False, True, False])
     if "od:" + name in array_roots and i < 2:
         import collections
 
@@ -335,6 +348,7 @@ def run_A(case, tape, clear_on_mutation=False):
             if case.get("lazy"):
                 probes["lazy_pipeline"] = 1
             prev = None
+            held = {}
             array_roots = tuple(case.get("array_roots", ()))
             distinct_keys = set()
             served = []  # what the cached pipeline answered so far (for the stale-cause diagnosis)
@@ -466,6 +480,26 @@ def run_A(case, tape, clear_on_mutation=False):
                     if clear_on_mutation and cached.cache is not None:
                         cached.cache.clear()
                     probes[kind] = probes.get(kind, 0) + 1
+                elif kind == "mutable_default":
+                    def mut(p, is_cached):
+                        lst = ["item-0"]
+                        held[(is_cached, op2["fn"], op2["param"])] = lst
+                        p[fn_out[op2["fn"]]].update_defaults({op2["param"]: lst})
+
+                    st = _mutate_both(mut, twin, cached)
+                    if st == "asymmetric":
+                        probes["discarded_asymmetric_mutation"] = 1
+                        return
+                    hist_flags["mutated_before"].add("update_defaults")
+                    hist_flags["mutated_since_prev"] = True
+                    epoch[0] += 1
+                elif kind == "mutate_default_in_place":
+                    for is_cached in (False, True):
+                        lst = held.get((is_cached, op2["fn"], op2["param"]))
+                        if lst is not None:
+                            lst.append(f"item-{len(lst)}")  # the object the pipeline holds as default now has other contents
+                    probes["default_mutated_in_place"] = probes.get("default_mutated_in_place", 0) + 1
+                    hist_flags["mutated_since_prev"] = True
                 elif kind == "update_on_copy":
                     val = _val(op2["param"], op2["value"]) + "-on-copy"
                     for p_ in (twin, cached):
